@@ -1025,6 +1025,9 @@ func (tc *typechecker) checkImport(impor *ast.Import) error {
 		// 'import . "pkg"': add every declaration to the file package block.
 		if isPeriodImport(impor) {
 			for ident, ti := range imported.Declarations {
+				if !isExported(ident) {
+					continue
+				}
 				tc.scopes.Declare(ident, ti, nil, impor)
 			}
 			return nil
